@@ -198,7 +198,10 @@ def run_case(run, spec):
     n, cls, ncls = lay["n"], lay["classes"], lay["ncls"]
     run.cover(k, min(n, 3), _layout_class(lay))
     V = run.violation
-    ok_sel = lambda: run.count("selection_checked")
+    def ok_sel():
+        run.count("selection_checked")
+        if len(run.samples) < 6 and n >= 3:
+            run.sample({"wrapper": k, "classes": cls[:16], "args": {a: b for a, b in spec.items() if a not in ("layout", "g", "kind")}})
 
     if k == "classfilter":
         sel = spec["sel"]
